@@ -261,3 +261,98 @@ Proof.
   intros W. unfold a_neighbours. rewrite filter_In, in_seq. split; [tauto|].
   intros H. split; auto. pose proof (awf_dom2 a v u W H). lia.
 Qed.
+
+(* ---------------------------------------------------------------- extensional equality *)
+(* agraph carries a function: the edit operations are compared up to pointwise equality *)
+Definition aeq (a b : agraph) : Prop := an a = an b /\ forall x y, adj a x y = adj b x y.
+
+Lemma aeq_refl a : aeq a a.
+Proof. split; auto. Qed.
+
+Lemma aeq_sym a b : aeq a b -> aeq b a.
+Proof. intros [H1 H2]. split; auto. Qed.
+
+Lemma aeq_trans a b c : aeq a b -> aeq b c -> aeq a c.
+Proof. intros [H1 H2] [H3 H4]. split; [congruence|]. intros. rewrite H2. auto. Qed.
+
+Lemma aeq_awf a b : aeq a b -> awf a -> awf b.
+Proof.
+  intros [H1 H2] W. constructor.
+  - intros. rewrite <- !H2. apply (awf_sym a W).
+  - intros. rewrite <- H2. apply (awf_irr a W).
+  - intros x y. rewrite <- H2, <- H1. apply (awf_dom a W).
+Qed.
+
+Lemma aeq_deg a b v : aeq a b -> a_deg a v = a_deg b v.
+Proof. intros [H1 H2]. unfold a_deg. rewrite H1. apply zsum_ext. intros. rewrite H2. auto. Qed.
+
+Lemma aeq_M a b : aeq a b -> a_M a = a_M b.
+Proof.
+  intros [H1 H2]. unfold a_M. rewrite H1. apply zsum_ext. intros. apply zsum_ext. intros.
+  rewrite H2. auto.
+Qed.
+
+Lemma aeq_neighbours a b v : aeq a b -> a_neighbours a v = a_neighbours b v.
+Proof. intros [H1 H2]. unfold a_neighbours. rewrite H1. apply filter_ext. intros. apply H2. Qed.
+
+Lemma aeq_degrees a b : aeq a b -> a_degrees a = a_degrees b.
+Proof.
+  intros H. unfold a_degrees. destruct H as [H1 H2]. rewrite H1. apply map_ext. intros.
+  apply aeq_deg. split; auto.
+Qed.
+
+Lemma aeq_add_edge_comm a i j : aeq (a_add_edge a i j) (a_add_edge a j i).
+Proof.
+  split; auto. intros x y. simpl. rewrite (Nat.eqb_sym j i). f_equal. f_equal. apply orb_comm.
+Qed.
+
+Lemma aeq_add_edge_same a i : aeq (a_add_edge a i i) a.
+Proof. split; auto. intros x y. simpl. rewrite Nat.eqb_refl. simpl. apply orb_false_r. Qed.
+
+Lemma aeq_add_edge_present a i j : awf a -> adj a i j = true -> aeq (a_add_edge a i j) a.
+Proof.
+  intros W H. split; auto. intros x y. simpl.
+  assert (H' : adj a j i = true) by (rewrite (awf_sym a W); auto).
+  bd; subst; simpl; rewrite ?H, ?H'; auto; apply orb_false_r.
+Qed.
+
+Lemma aeq_remove_edge_absent a i j : awf a -> adj a i j = false -> aeq (a_remove_edge a i j) a.
+Proof.
+  intros W H. split; auto. intros x y. simpl.
+  assert (H' : adj a j i = false) by (rewrite (awf_sym a W); auto).
+  bd; subst; simpl; rewrite ?H, ?H'; auto; apply andb_true_r.
+Qed.
+
+Lemma aeq_remove_edge_comm a i j : aeq (a_remove_edge a i j) (a_remove_edge a j i).
+Proof. split; auto. intros x y. simpl. f_equal. f_equal. apply orb_comm. Qed.
+
+(* ---------------------------------------------------------------- the neighbour list is ascending *)
+From Coq Require Sorted.
+Lemma filter_seq_sorted (p : nat -> bool) a n : Sorted.StronglySorted lt (filter p (seq a n)).
+Proof.
+  revert a. induction n; intros a; simpl; [constructor|].
+  destruct (p a); auto. constructor; auto.
+  apply Forall_forall. intros x Hx. apply filter_In in Hx. destruct Hx as [Hx _].
+  apply in_seq in Hx. lia.
+Qed.
+
+Lemma a_neighbours_sorted a v : Sorted.StronglySorted lt (a_neighbours a v).
+Proof. apply filter_seq_sorted. Qed.
+
+Lemma a_degrees_length a : length (a_degrees a) = an a.
+Proof. unfold a_degrees. rewrite map_length, seq_length. auto. Qed.
+
+Lemma a_degrees_nth a v : v < an a -> nth v (a_degrees a) 0%Z = a_deg a v.
+Proof.
+  intros H. unfold a_degrees. rewrite (nth_indep _ 0%Z (a_deg a 0)) by (rewrite map_length, seq_length; auto).
+  rewrite map_nth, seq_nth; auto.
+Qed.
+
+(* a list of integers is determined by its length and its entries *)
+Lemma list_Z_ext (l1 l2 : list Z) : length l1 = length l2 ->
+  (forall k, k < length l1 -> nth k l1 0%Z = nth k l2 0%Z) -> l1 = l2.
+Proof.
+  revert l2. induction l1; destruct l2; simpl; intros; try lia; auto. f_equal.
+  - apply (H0 0). lia.
+  - apply IHl1; [lia|]. intros k Hk. apply (H0 (S k)). lia.
+Qed.
